@@ -1107,13 +1107,13 @@ def run(ctx):
         lays = lays + [[True, True], [False, False, True], [True, True, False, True]]
     for li, src in enumerate(lays):
         A = alphabet(src)
-        L = ctx.budget(3, 4) if li < 1 else ctx.budget(2, 3)
+        L = ctx.budget(3, 4) if li < 1 else (ctx.budget(2, 3) if li < 4 else 2)
         for n in range(1, L + 1):
             for seq in itertools.product(A, repeat=n):
                 batch.append(({'src': src, 'ops': list(seq)}, 'last'))
                 ctx.count(f'exhaustive:len{n}')
     # random histories, every model layout
-    n_rand = ctx.budget(250, 6000)
+    n_rand = ctx.budget(250, 3000)
     lay = layouts()
     for i in range(n_rand):
         src = lay[i % len(lay)] if i < 2 * len(lay) else rng.choice(lay)
